@@ -3,7 +3,7 @@ CONSTANTS
   MaxBreaches = 0
   MaxSteps = 5
   Acts = {"Inject", "Repair", "Reopen"}
-INVARIANTS Sound SoftNeverError Complete
+INVARIANTS Sound SoftNeverError Complete SoftWarns
 PROPERTIES HistoryFree RepairRestores
 VIEW View
 ACTION_CONSTRAINT Emit
